@@ -72,7 +72,7 @@ class Prop(PropBase):
                     yield {"op": "call", "ufunc": name, "method": "__call__", "cls": cls, "arr": arrange, "out": out,
                            "dtype": rng.choice(["f8", "f4", "i8"] if REQ[cls] is None else
                                                (["f8", "f4"] if REQ[cls][0] == "float64" else ["c16", "c8"])),
-                           "dask": dask}
+                           "dask": dask, "where": rng.random() < 0.35}
         for m in ("reduce", "accumulate", "reduceat", "outer", "at"):
             for name in ("add", "multiply", "maximum", "logical_and"):
                 for cls in (CLASSES if not quick else rng.sample(CLASSES, 3)):
@@ -211,6 +211,21 @@ class Prop(PropBase):
                 ok = req is None or str(r.dtype) in req or bool(np.can_cast(r.dtype, np.dtype(req[0]), "safe"))
                 okl.append("1" if ok else "0")
             oks = ",".join(okl)
+        # a `where=` mask (plain boolean array) together with an out= target: masked-off elements keep the target's old values
+        if case.get("where") and method == "__call__" and "out" in kw and uf.nout == 1 and not isinstance(raw_res, Exception) \
+                and not case["dask"]:
+            mask = (np.arange(int(np.prod(raw_res.shape))).reshape(raw_res.shape) % 3 != 0)
+            if out_kind == "inplace":
+                start = np.array(raw_ops[0], copy=True)
+            else:
+                start = np.full(raw_res.shape, 7, dtype=raw_res.dtype)
+                tgt0 = out_obj.data if isinstance(out_obj, pb.Signal) else out_obj
+                tgt0[...] = 7
+            try:
+                raw_res = fn(*raw_ops, out=start, where=mask)
+                kw["where"] = mask
+            except Exception:
+                pass
         res = {"desc": desc, "out_desc": out_desc, "oks": oks, "out_kind": out_kind, "nout": uf.nout,
                "raw_err": err_name(raw_res) if isinstance(raw_res, Exception) else None}
         before_rates = {id(o): o.sample_rate for o in ops if isinstance(o, pb.Signal)}
